@@ -51,6 +51,7 @@ type World struct {
 	mu       sync.Mutex
 	Attempts []*Attempt
 	Lst      [2]chan iobroker.Event
+	slowLst  []chan iobroker.Event // listeners added by AddSlowListener (event index 2, 3, …)
 
 	opPause  chan struct{} // non-nil while the operator's terminal is stalled
 	opPauseM sync.Mutex
@@ -112,6 +113,30 @@ func NewWorld(ochCap, ichCap int) (*World, error) {
 	w.consumerQuit = make(chan struct{})
 	go w.consume()
 	return w, nil
+}
+
+// AddSlowListener adds an event listener whose channel holds capacity events
+// ("ch should be buffered" is all the API asks for) and whose owner looks at
+// it only every delay; its events are logged with index 2, 3, ….  It returns
+// the index.
+func (w *World) AddSlowListener(capacity int, delay time.Duration) int {
+	ch := make(chan iobroker.Event, capacity)
+	w.mu.Lock()
+	idx := len(w.Lst) + len(w.slowLst)
+	w.slowLst = append(w.slowLst, ch)
+	w.mu.Unlock()
+	w.B.AddEventListener(ch)
+	go func() {
+		for {
+			time.Sleep(delay)
+			ev, ok := <-ch
+			if !ok {
+				return
+			}
+			w.Log.Add(Event{Kind: "ev", Att: -1, N: idx, S: string(ev.Type)})
+		}
+	}()
+	return idx
 }
 
 // consume is the operator's terminal: it logs every CLine in arrival order.
@@ -205,6 +230,10 @@ func (w *World) Close() (stuck []*Attempt) {
 	for i := range w.Lst {
 		w.B.RemoveEventListener(w.Lst[i])
 		close(w.Lst[i])
+	}
+	for _, ch := range w.slowLst {
+		w.B.RemoveEventListener(ch)
+		close(ch)
 	}
 	close(w.consumerQuit)
 	<-w.consumerDone
